@@ -14,6 +14,7 @@ from mc import boundx
 from mc import ilv
 from mc import statex
 from mc import c14_seq as seq
+from mc import c14_flt as flt
 from mc import c14_ilv as cilv
 
 BUDGET = {'quick': 240, 'thorough': 600}
@@ -51,6 +52,15 @@ def seq_configs(quick):
          seq.spec_filter_cfg(seq.UNIQUE_NAMES[:2]), 6, 1),
         ('netsvc/30', seq.netsvc_cfg('192.168.0.0/30', n), d, 1),
         ('netsvc/29', seq.netsvc_cfg('192.168.0.0/29', n), d, 1),
+        # every external call of on_create_request / on_delete_request may
+        # fail once (max_dev faults per history), then retry / delete /
+        # restart
+        ('netsvc+faults/30',
+         flt.netsvc_fault_cfg('192.168.0.0/30', n, 1 if quick else 2),
+         5 if quick else 6, 1),
+        ('netsvc+faults/29',
+         flt.netsvc_fault_cfg('192.168.0.0/29', n, 1 if quick else 2),
+         5 if quick else 6, 1),
     ]
 
 
@@ -207,12 +217,13 @@ def _run(ctx, t0):
            'exhaustive': True}
     violations = []
     cfgs = seq_configs(ctx.quick)
-    seq_budget = ctx.budget_s * (0.3 if ctx.quick else 0.3)
+    seq_budget = ctx.budget_s * (0.45 if ctx.quick else 0.35)
     shares = sum(c[3] for c in cfgs)
     nontrivial = 0
     for name, cfg, depth, share in cfgs:
         spec = seq.Spec(cfg)
-        res = statex.bfs(spec, depth, workers=ctx.workers, chunk=32,
+        res = statex.bfs(spec, depth, max_dev=cfg.get('max_dev', 0),
+                         workers=ctx.workers, chunk=32,
                          time_cap=seq_budget * share / shares,
                          progress=None)
         cov['states'] += res.states
@@ -226,6 +237,12 @@ def _run(ctx, t0):
             'owners': cfg['owners'],
             'events': len(cfg['events']) if cfg['events'] else 'state-dependent',
             'wall_s': round(res.wall_s, 1)}
+        if 'points' in cfg:
+            cov['configs'][name].update(
+                faults_per_history=cfg['max_dev'],
+                fault_points={k: ['%s#%d' % (f, i) for f, i in v]
+                              for k, v in cfg['points'].items()},
+                fault_points_source=cfg['points_source'])
         ctx.log('%s: depth %d states %d transitions %d exhausted=%s %.1fs'
                 % (name, res.depth_completed, res.states, res.transitions,
                    res.exhausted, res.wall_s))
@@ -253,7 +270,12 @@ def _run(ctx, t0):
                                'filtered_release_next_to_unaddressed',
                                'ownerless_release',
                                'release_with_empty_owner_of_held_entry',
-                               'alloc_next_to_other_pool'):
+                               'alloc_next_to_other_pool',
+                               'fault_fired_in_create',
+                               'fault_fired_in_delete',
+                               'create_retry_after_fault',
+                               'delete_after_failed_create',
+                               'restart_after_fault'):
         if cov['nontrivial_counters'].get(k, 0) == 0:
             raise statex.HarnessError('vacuous run: counter %s is 0' % k)
     nontrivial += sum(cov['nontrivial_counters'][k] for k in NONTRIVIAL_SEQ)
